@@ -21,7 +21,10 @@ def claim(pid, category, text, note, technique, design_ref):
     )
 
 
-FORMULA_NOTE = ('Real-arithmetic model of floating point (exact +,-,*,/ and exact libm; rounding/overflow/libm accuracy outside the claim); '
+FORMULA_NOTE = ('Evaluators are resolved as the API\'s virtual call resolves them (vtable slot of the base declaration). '
+                'An obligation the solver does not decide within the budget is printed UNDECIDED (never counted as held); before that its replay is run at concrete '
+                'admissible points found by sampling under the obligation\'s path conditions, and a mismatch of the real library there is reported as a violation. '
+                'Real-arithmetic model of floating point (exact +,-,*,/ and exact libm; rounding/overflow/libm accuracy outside the claim); '
                 'sin/cos abstracted to points on the unit circle, other transcendental atoms opaque with sound axioms; '
                 'trusted: clang-14 lowering, irdump+Engine A (validated each run against the g++ build through the public API), '
                 'the reference operators in /verif/spec, z3 4.8.12.')
@@ -53,9 +56,10 @@ claim('C20', 'other',
 claim('C05', 'other',
       'rans_sa: eval_q_u/eval_q_v == SA channel operator (f_v1, f_v2, modified-SA production limiter, r=min(.,10), g, f_w with the 1/6 power) applied by symbolic differentiation to eval_exact_u/v, decided path by path (library branches resolve the reference ite) with cut-point lemmas. '
       'fans_sa_transient_free_shear: all five 3-argument sources against the FANS-SA operator on the documented transient fields, 2-argument sources == 3-argument at t=0, 2-argument exact fields == t=0 sections; the momentum and energy sources are KNOWN FINDINGS (f_v1 not differentiated; rho cv dT/dt missing) and are held to the as-built operator. '
-      'fans_sa_steady_wall_bounded: update() executed symbolically; continuity and both momentum sources == FANS-SA operator on the exact fields (quick); nu_sa and energy equations are attempted in the thorough tier only.',
-      FORMULA_NOTE + ' Transcendental atoms (log, exp, pow(.,-1/7), pow(.,1/6), sqrt, asin) are opaque with sound axioms. Wall-bounded nu_sa/energy identities that do not finish within the thorough budget are printed as UNDECIDED and are outside the claim.',
-      'symbolic execution of LLVM IR + symbolic differentiation + SMT (z3 nlsat) with path-wise ite resolution and proved cut-point lemmas', 'DESIGN.md §4 C05')
+      'fans_sa_steady_wall_bounded: update() executed symbolically; continuity, both momentum sources and the nu_sa source (both branches of the negative-S limiter, wall destruction with f_w) == FANS-SA operator on the exact fields (quick and thorough); '
+      'the energy source is attempted in the thorough tier only: its convection and y-direction heat-flux groups are proved, the x-direction heat-flux and viscous-work groups do not finish (UNDECIDED, stated).',
+      FORMULA_NOTE + ' Transcendental atoms (log, exp, pow(.,-1/7), pow(.,1/6), sqrt, asin) are opaque with sound axioms. The wall-bounded temperature field of the operator is the library\'s exact T, proved equal to p/(rho R) by its own obligation. The wall-bounded energy identity is outside the claim where printed UNDECIDED.',
+      'symbolic execution of LLVM IR + symbolic differentiation + SMT (z3 nlsat) with path-wise/select-wise case resolution, proved cut-point lemmas and additive splitting into separately proved groups of summands', 'DESIGN.md §4 C05, §11')
 claim('C06', 'other',
       'euler_chem_1d: the four sources == two-species (N,N2) thermally-perfect reacting Euler operator on the exact fields with the user callback K_eq an UNINTERPRETED function (so every positive pure callback at once): species sources, their sum == d(rho u)/dx for every K_eq, '
       'momentum (p = R_N T (rho_N + rho_N2/2)) and energy (5/2, 7/4 translational-rotational, N2 vibrational, formation enthalpies); the callback is invoked exactly once, on the exact temperature term.',
@@ -71,7 +75,8 @@ claim('C08', 'other',
 claim('C09', 'other',
       'Solver-decidable part of the accuracy property, on the long double instantiation of every evaluator of the solutions of C01-C08: (1) every FP constant is the 64-bit rounding of a simple rational (a double-rounded constant fails), '
       '(2) perturbation model of type purity: each value narrowed to double is multiplied by (1+delta) and z3 decides whether the result depends on delta, (3) pi/PI initialisers call acosl for long double, '
-      '(4) definedness in the real model: admissibility => every denominator of the Euler/Navier-Stokes evaluators is non-zero. Flagged items are confirmed against a 50-digit evaluation (error > 2^-56 of the scale) before being reported. '
+      '(4) definedness in the real model: admissibility => every denominator of the Euler/Navier-Stokes/heat/Burgers/SA evaluator families is non-zero, '
+      '(5) no DBL_EPSILON-derived tolerance or iteration threshold in the long double slice. Flagged items are confirmed against a 50-digit evaluation (error > 2^-56 of the scale) before being reported. '
       'The formula layer of both instantiations is C01-C08.',
       'NOT decided and outside the claim: the quantitative bound (small multiple of unit roundoff) for the compiled arithmetic and glibc libm -- no solver here has a theory of binary floating point with sin/cos/pow/exp; overflow; effects of fast-math style compiler flags (the encoding uses -ffp-contract=off, no fast-math, like the -O0 baseline).',
       'symbolic execution of LLVM IR with a perturbation model of narrowing + type-relative constant analysis + SMT definedness queries', 'DESIGN.md §4 C09')
@@ -85,11 +90,11 @@ claim('C07', 'other',
       FORMULA_NOTE + ' Power-law gradients: see evidence (family powerlaw) or stated as not covered.', 'symbolic execution of LLVM IR with symbolic integer index + SMT identity checking', 'DESIGN.md §4 C07')
 claim('C11', 'other',
       'One-step inductive checking of the parameter store from the post-masa_init state with ALL registered parameters symbolic: masa_set_param/get_param with a SYMBOLIC name string (covers every registered name and every unknown name), '
-      'masa_init_param, masa_purge_default_param, masa_sanity_check (one parameter symbolic at a time, z3 decides marker => nonzero and far-from-marker => 0), set_vec/get_vec for every length 0..4 (8 thorough) with symbolic contents and a length change; every catalogue class except the two fixtures, both scalar types.',
+      'masa_init_param (scalar defaults AND vector parameters restored to their registered defaults), masa_purge_default_param, masa_sanity_check (one parameter symbolic at a time, z3 decides marker => nonzero and far-from-marker => 0), set_vec/get_vec for every length 0..4 (8 thorough) with symbolic contents and a length change; every catalogue class except the two fixtures, both scalar types.',
       STRUCT_NOTE, 'symbolic execution of LLVM IR over container contract models; path-condition feasibility by z3', 'DESIGN.md §4 C11')
 claim('C14', 'other',
       'Finite catalogue enumerated exhaustively by executing get_list_mms/masa_init/masa_printid/masa_get_name/masa_get_dimension/masa_init_param/masa_sanity_check on the IR for every entry and both scalar types; '
-      'documented evaluators (spec/capabilities.json): vtable slot overridden + no path through the API reaches a stub for symbolic arguments; interior-point finiteness with defaults is run on the real library (finite statement).',
+      'documented evaluators (spec/capabilities.json): vtable slot overridden + no path through the API reaches a stub for symbolic arguments; interior-point finiteness with defaults is run on the real library (finite statement; a crash of that run is a violation).',
       STRUCT_NOTE + ' Capability and dimension tables are frozen specifications in /verif/spec.', 'symbolic execution of LLVM IR (finite exhaustive catalogue) + concrete run of the real library for the interior-point clause', 'DESIGN.md §4 C14')
 claim('C15', 'other',
       'Every (catalogue solution, masa_eval_* API template) pair outside the capability table (about 8400 pairs, both scalar types) executed with symbolic arguments: all paths return the constant -1.33, print one MASA ERROR line, store nothing, do not terminate. '
@@ -99,31 +104,36 @@ claim('C15', 'other',
 claim('C10', 'other',
       'Every evaluator override of every catalogue class (both scalar types) executed from the object state in which registered parameters are named symbols and every member that any method of the class writes is an independent fresh symbol: '
       'the merged result may mention only parameters/vector contents/arguments (else a two-copy z3 query decides equality), the final value of every registered scalar and vector parameter equals its initial symbol, and no store leaves the object. '
-      'With the registry isolation of C12 this gives history independence over any interleaving.',
+      'Function-local statics are modelled (first-call initialisation forks; an initialised static holds an arbitrary earlier value), so a value remembered across calls or handles shows as a dependence. '
+      'With the registry isolation of C12 this gives history independence over any interleaving. Replays: evaluation order, parameter change between two evaluations at one point, process order (first evaluation with other parameters).',
       STRUCT_NOTE + ' Bit-for-bit reproducibility assumes every IR operation is a deterministic function of its operand bits (fixed rounding mode).', 'symbolic execution of LLVM IR from an arbitrary object state (frame + self-composition)', 'DESIGN.md §4 C10')
 claim('C12', 'other',
       'One API step from a registry state with K (2 quick, 3 thorough) entries whose handle strings are pairwise-distinct SYMBOLS mapped to live objects built by the real masa_init on the IR: '
-      'masa_select_mms(H), masa_init(H,name) (fresh default instance mapped at H and selected, nothing else written), masa_set_param (stores only inside the selected object), masa_list_mms/get_name, and independence of the double and long double registries; H symbolic covers every registered and every new handle.',
+      'masa_select_mms(H), masa_init(H,name) (fresh default instance mapped at H and selected, nothing else written), masa_set_param (stores only inside the selected object), masa_list_mms/get_name, and independence of the double and long double registries; H symbolic covers every registered and every new handle. '
+      'Bounded API sequences (depth 4 quick, 5 thorough) of init/select/set_param/get_param over 2 handles from the empty registry are explored against a reference registry (state outside the K-entry shape, e.g. the first init).',
       STRUCT_NOTE + ' K bounds the symbolic shape only; std::map is modelled for any K.', 'symbolic execution of LLVM IR over a symbolic finite-map registry (inductive one-step)', 'DESIGN.md §4 C12')
 claim('C13', 'model_checking',
       'CBMC 6.11 (C++ front end) on the VERBATIM src/masa_map.cpp with a bounded std::string stub: for every string of length <= 6 (8 thorough) over all non-NUL byte values masa_map(s) equals the reference filter(lowercase(s), c not in {-,blank}); --unwinding-assertions; WITNESS twin must fail. '
-      'Engine A: masa_init(H, NAME) with NAME symbolic resolves to the first catalogue entry equal to normalise(NAME), no match is fatal with the registry untouched, the handle key is used verbatim.',
+      'Engine A: masa_init(H, NAME) with NAME symbolic resolves to the first catalogue entry equal to normalise(NAME), no match is fatal with the registry untouched (nothing registered under H), the handle key is used verbatim. '
+      'masa_map.cpp is analysed by CBMC only; inside Engine A masa_map is replaced by its contract.',
       'Bounded: strings longer than the bound are outside the claim. Trusted: CBMC C++ front end with -DSWIG, the 60-line string stub (find/replace/operator[] per the standard), C-locale tolower; Engine A contract models.', 'CBMC bounded model checking of the real translation unit + symbolic execution of masa_init', 'DESIGN.md §4 C13')
 claim('C16', 'other',
       'In the default (exit) build and in a -DMASA_EXCEPTIONS -fexceptions build of the IR: every solution-dependent API template (130 per scalar type) called with symbolic arguments before any masa_init, masa_select_mms of an unknown (symbolic) handle and masa_init of an unknown (symbolic) solution name from a K=2 symbolic registry: '
-      'the only path prints MASA FATAL ERROR, then reaches exit(1) / throw of int 1, with no store into pre-existing memory and the registry snapshot unchanged.',
+      'the only path prints MASA FATAL ERROR, then reaches exit(1) / throw of int 1, with no store into pre-existing memory and the registry snapshot unchanged; '
+      'in the exception build a second step from the state the caught failure leaves: the same failing call fails the same way again and every registered handle can still be selected.',
       STRUCT_NOTE + ' Cleanup code on unwind edges is assumed not to touch the registry.', 'symbolic execution of LLVM IR in two build configurations (event-trace and store-set checking)', 'DESIGN.md §4 C16')
 claim('C17', 'other',
       'Every extern "C" definition of cmasa.cpp executed with symbolic arguments against UNINTERPRETED MASA::masa_*<double> templates: exactly one call of the template the naming rule prescribes with the arguments in order, the result (value or status) is the callee\'s, '
-      'masa_get_name leaves the callee\'s string in the caller buffer, masa_set_array/masa_get_array move length and contents for every length 0..4 (8 thorough); wrappers returning a constant are compared with the real template on every catalogue class.',
+      'masa_get_name leaves the callee\'s string in the caller buffer, masa_set_array/masa_get_array move length and contents for every length 0..4 (8 thorough) with the caller\'s *n on entry to masa_get_array an arbitrary (symbolic) integer; wrappers returning a constant are compared with the real template on every catalogue class.',
       STRUCT_NOTE, 'symbolic execution of LLVM IR with uninterpreted callees (translation-validation style term equality)', 'DESIGN.md §4 C17')
 claim('C18', 'other',
       'z3 bit-vector model of the System V AMD64 argument/result slots: for each of the 92 bind(C,name=...) interfaces of masa.f90 the caller writes its arguments per the Fortran declaration and the callee reads per the C definition (IR signature cross-checked with the source signature); unsat = every parameter observes the intended argument of the same kind and the result register class matches. '
       'Header: every extern declaration of masa.h.in equals its definition; masa.i wraps exactly masa.h. A deliberately wrong binding is the witness.',
       'Fortran is parsed, not compiled (no Fortran front end in the image): an interface outside the parsed subset fails the run. A SUBROUTINE bound to an int-returning C function is accepted (status discarded, register compatible).', 'SMT (QF_BV) model of the calling convention per binding', 'DESIGN.md §4 C18')
 claim('C19', 'other',
-      'Engine A memory model (undef tracking, region lifetimes, container index checks, heap ownership) over: static initialisation and all 37 constructors, masa_init from a symbolic registry (allocations balance to exactly one live instance per handle, replaced instance freed), printid/list/display, the registry destructor, '
-      'every documented evaluator of every class with symbolic arguments and parameters (no read of a never-written member), vector parameters of every length 0..4, the C array interface of length 0..4 through the real callee. Findings replay under valgrind.',
+      'Engine A memory model (undef tracking, region lifetimes, container index checks, heap ownership) over: static initialisation and all 37 constructors, masa_init from a symbolic registry (allocations balance to exactly one live instance per handle, replaced instance freed), the failing calls (unknown solution name on a new or existing handle, unknown handle: '
+      'the registry holds only live instances at the fatal error and the static destructor run by exit(1) releases each exactly once), printid/list/display, the registry destructor, '
+      'every documented evaluator of every class with symbolic arguments and parameters (no read of a never-written member), vector parameters of every length 0..4 and every combination of lengths 0..2 followed by every evaluator, the C array interface of length 0..4 through the real callee. Findings replay under valgrind.',
       STRUCT_NOTE + ' UB classes are those the IR shows (see evidence assumptions); libstdc++ internals and allocation failure are outside.', 'symbolic execution of LLVM IR with an explicit memory/ownership model', 'DESIGN.md §4 C19')
 
 ALL = ['C%02d' % i for i in range(1, 21)]
